@@ -65,6 +65,7 @@ RULE = (
     "modes (mesh+locations_final, built-in velocity gradient callable+locations_initial, "
     "pathline files) x 3 phase lists x fabric A-E; block inputs: every built-in velocity "
     "callable, pathline file kinds (npz / npz+scsv / scsv), relative and absolute file names. "
+    "configuration file named relative to a working directory changed after import (2 ways x modes x phase lists x 3 omission sets); "
     "phases declared by ordinal (5 lists incl. mixed name/ordinal) x modes x fabric(2) x 6 omission sets: ConfigError or a parse satisfying every clause; "
     "faults: single-fault list x modes x phase lists, each must raise ConfigError. A config case "
     "is non-trivial when at least one key is omitted or faulted; distinct = distinct generated "
@@ -562,13 +563,27 @@ def parse(model):
     path = os.path.join(fs["wd"], "case.toml")
     with open(path, "w") as f:
         f.write(text)
+    old = os.getcwd()
     try:
+        if _CWD_MODE[0] == "rel":
+            # environment answer: the process changed its working directory after pydrex was
+            # imported, and names the configuration file relative to the new one (seed C19f)
+            os.chdir(fs["wd"])
+            path = "case.toml"
+        elif _CWD_MODE[0] == "rel_sub":
+            os.chdir(os.path.join(fs["wd"], "sub"))
+            path = os.path.join("..", "case.toml")
         cfg = p.io.parse_config(path)
     except p.ConfigError as e:
         return "ConfigError", e, text
     except Exception as e:  # the oracle is about exception types
         return type(e).__name__, e, text
+    finally:
+        os.chdir(old)
     return "ok", cfg, text
+
+
+_CWD_MODE = [None]
 
 
 def close_cfg(cfg):
@@ -1128,6 +1143,19 @@ def run_block_edge(key):
     return acc.done({"case": key, "configs": acc.res["n"]})
 
 
+def run_block_cwd(key):
+    acc = Acc(key)
+    allout = ["output." + k for k in OUT_KEYS]
+    _CWD_MODE[0] = key["cwd"]
+    try:
+        for ph in PHASES:
+            for om in ([], ["output.directory"], allout + ["top.[output]"]):
+                run_config(acc, {"mode": key["mode"], "ph": ph, "fab": "A", "omit": list(om)})
+    finally:
+        _CWD_MODE[0] = None
+    return acc.done({"case": key, "configs": acc.res["n"]})
+
+
 def run_block_ordinal(key):
     acc = Acc(key)
     allout = ["output." + k for k in OUT_KEYS]
@@ -1439,6 +1467,10 @@ def gen_cases(tier, seed):
     for mode in MODES:
         for name, val in EDGE_VALUES:
             keys.append({"part": "config", "block": "edge", "mode": mode, "name": name, "val": repr(val)})
+    # the configuration file named relative to a working directory that was changed after import
+    for mode in MODES:
+        for cwd in ("rel", "rel_sub"):
+            keys.append({"part": "config", "block": "cwd", "mode": mode, "cwd": cwd})
     # phases declared by ordinal
     for mode in MODES:
         for ph in ORD_PHASES:
@@ -1474,6 +1506,8 @@ def run_case(key):
         return run_block_inputs(key)
     if key["block"] == "ordinal":
         return run_block_ordinal(key)
+    if key["block"] == "cwd":
+        return run_block_cwd(key)
     if key["block"] == "out":
         return run_block_out(key)
     if key["block"] == "prm":
